@@ -1,6 +1,7 @@
 import SimilarVerif.Props.C01
 import SimilarVerif.Lemmas.HookFail
 import SimilarVerif.Lemmas.ReplaceTotal
+import SimilarVerif.Lemmas.ReplaceReuse
 /-!
 # C08 — hook protocol: finish once and last; a hook error aborts the diff unchanged
 
@@ -193,3 +194,73 @@ end SimilarVerif.C08
 
 #print axioms SimilarVerif.C08.replace_alone_total
 #print axioms SimilarVerif.C08.no_algorithm_calls_replace
+
+namespace SimilarVerif.C08
+open SimilarVerif Spec
+
+/-- **`Replace::finish` leaves the adapter in its initial state** (any inner hook, any pending runs), and so the
+adapter state returned by the run behind `Replace` (`replace_alone_total`) is the initial one `{}` -/
+theorem replace_finish_leaves_initial_state :
+    (∀ {σ : Type} (h : Hook σ) (rs rs' : RState) (s s' : σ) (w w' : World),
+      (replaceHook h).call .finish (rs, s) w = .ok ((rs', s'), w') → rs' = {}) ∧
+    (∀ (alg : Alg) (E : Env) (os oe ns ne : Nat) (w : World), Headline.RangesInBounds E os oe ns ne →
+      ∃ (raw out : List Op) (w' : World),
+        rawTrace alg E os oe ns ne w = .ok ({ trace := raw.map Call.op ++ [.finish] }, w') ∧
+        NoReplaceOp raw ∧
+        diffWith alg E (replaceHook recHook) os oe ns ne ({}, {}) w =
+          .ok ((({} : RState), { trace := out.map Call.op ++ [.finish] }), w') ∧
+        (∀ w0, replaceOut raw w0 = .ok ((({} : RState), { trace := out.map Call.op ++ [.finish] }), w0)) ∧
+        Walk (eqB E) os ns out oe ne ∧ Alternating out) :=
+  ⟨fun h rs rs' s s' w w' hc => ReplaceReuse.replace_finish_resets h rs rs' s s' w w' hc,
+   fun alg E os oe ns ne w hr => ReplaceReuse.replace_run_final_state alg E os oe ns ne w hr⟩
+
+/-- **one `Replace` adapter value can be re-used for a second diff**: after a first diff (`alg`, `E`) a second diff
+(`alg2`, `E2`, any in-bounds ranges) run from the very adapter state, recorded trace and clock the first one
+returned returns, ends in the initial adapter state with the clock of the same second diff through a FRESH
+adapter, and the recording hook holds the first trace followed by exactly the trace of the fresh second diff -/
+theorem replace_adapter_reusable (alg alg2 : Alg) (E E2 : Env) (os oe ns ne os2 oe2 ns2 ne2 : Nat) (w : World)
+    (hr : Headline.RangesInBounds E os oe ns ne) (hr2 : Headline.RangesInBounds E2 os2 oe2 ns2 ne2) :
+    ∃ (out out2 : List Op) (rs : RState) (w' w'' : World),
+      diffWith alg E (replaceHook recHook) os oe ns ne ({}, {}) w =
+        .ok ((rs, { trace := out.map Call.op ++ [.finish] }), w') ∧
+      rs = {} ∧
+      diffWith alg2 E2 (replaceHook recHook) os2 oe2 ns2 ne2 ({}, {}) w' =
+        .ok ((({} : RState), { trace := out2.map Call.op ++ [.finish] }), w'') ∧
+      diffWith alg2 E2 (replaceHook recHook) os2 oe2 ns2 ne2 (rs, { trace := out.map Call.op ++ [.finish] }) w' =
+        .ok ((({} : RState), { trace := (out.map Call.op ++ [.finish]) ++ (out2.map Call.op ++ [.finish]) }), w'') ∧
+      Walk (eqB E) os ns out oe ne ∧ Alternating out ∧
+      Walk (eqB E2) os2 ns2 out2 oe2 ne2 ∧ Alternating out2 :=
+  ReplaceReuse.replace_reuse alg alg2 E E2 os oe ns ne os2 oe2 ns2 ne2 w hr hr2
+
+/-- a trace the recording hook already holds is only a prefix of what it holds after a run behind `Replace` -/
+theorem replace_recorded_prefix (alg : Alg) (E : Env) (os oe ns ne : Nat) (a a' : RState) (P T : List Call)
+    (r' : Rec) (w w' : World)
+    (h : diffWith alg E (replaceHook recHook) os oe ns ne (a, { trace := T }) w = .ok ((a', r'), w')) :
+    r' = { trace := r'.trace } ∧
+    diffWith alg E (replaceHook recHook) os oe ns ne (a, { trace := P ++ T }) w =
+      .ok ((a', { trace := P ++ r'.trace }), w') :=
+  ReplaceReuse.replace_prefix alg E os oe ns ne a a' P T r' w w' h
+
+/-- non-vacuity: `[1,0]` vs `[1,2,0,1]`, Myers behind `Replace`: the adapter comes back in its initial state … -/
+example : (diffWith .myers (Env.ofSeqs #[1,0] #[1,2,0,1]) (replaceHook recHook) 0 2 0 4 ({}, {}) {}).map (·.1.1) =
+    .ok {} := by rfl
+
+/-- … with a pending delete it would not be initial before `finish`, and is after it -/
+example : ((replaceHook recHook).call .finish ({ del := some (0, 1, 0) }, {}) {}).map (·.1) =
+    .ok ({}, { trace := [.op (.delete 0 1 0), .finish] }) := by rfl
+
+/-- … and a second diff (`[3]` vs `[4]`, LCS) through the returned adapter appends its own script to the first -/
+example :
+    (match diffWith .myers (Env.ofSeqs #[1,0] #[1,2,0,1]) (replaceHook recHook) 0 2 0 4 ({}, {}) {} with
+     | .ok (st, w') =>
+       (diffWith .lcs (Env.ofSeqs #[3] #[4]) (replaceHook recHook) 0 1 0 1 st w').map
+         (fun (x : (RState × Rec) × World) => x.1)
+     | .error e => .error e) =
+    (.ok (({} : RState), { trace := [.op (.equal 0 0 1), .op (.insert 1 1 1), .op (.equal 1 2 1), .op (.insert 2 3 1), .finish,
+                        .op (.replace 0 1 0 1), .finish] }) : Res (RState × Rec)) := by rfl
+
+end SimilarVerif.C08
+
+#print axioms SimilarVerif.C08.replace_finish_leaves_initial_state
+#print axioms SimilarVerif.C08.replace_adapter_reusable
+#print axioms SimilarVerif.C08.replace_recorded_prefix
